@@ -104,6 +104,7 @@ func (e *Engine) pkgByNameFrom(from *types.Package, name string) *types.Package 
 // have SSA bodies (see Engine.inlineDeps).
 var syntaxDeps = map[string]bool{
 	"github.com/btcsuite/btcd/wire": true,
+	"github.com/vulpemventures/go-elements/transaction": true,
 }
 
 func loadEngine(repo string, patterns []string) (*Engine, error) {
@@ -173,6 +174,7 @@ func loadEngine(repo string, patterns []string) (*Engine, error) {
 			"github.com/lightningnetwork/lnd/lnrpc/routerrpc": true,
 			"github.com/elementsproject/glightning/glightning": true,
 			"github.com/btcsuite/btcd/wire":                    true,
+			"github.com/vulpemventures/go-elements/transaction": true,
 		}}
 	packages.Visit(pkgs, nil, func(p *packages.Package) {
 		e.byPath[p.PkgPath] = p
